@@ -59,6 +59,19 @@ type c07PM struct {
 func (e *c07PM) Error() string   { return "n" + strconv.Itoa(e.id) }
 func (e *c07PM) Unwrap() []error { return e.causes }
 
+// c07NP: a pointer type with nil-safe methods, used as a TYPED NIL error (address 0). All nil values
+// of the type are one value, so a graph holds at most one such node; what it says and what it
+// unwraps to is configured per build.
+type c07NP struct{ _ int }
+
+var (
+	c07NPId    int
+	c07NPCause error
+)
+
+func (e *c07NP) Error() string { return "n" + strconv.Itoa(c07NPId) }
+func (e *c07NP) Unwrap() error { return c07NPCause }
+
 type c07Cell struct {
 	cause  error
 	causes []error
@@ -172,9 +185,9 @@ func init() {
 
 func c07IsErrdef(k string) bool { return k == "ew" || k == "ej" || k == "en" || k == "rs" }
 func c07IsValue(k string) bool  { return k == "vs" || k == "vm" }
-func c07IsSingle(k string) bool { return k == "ps" || k == "vs" }
+func c07IsSingle(k string) bool { return k == "ps" || k == "vs" || k == "np" }
 func c07IsForeign(k string) bool {
-	return k == "ps" || k == "pm" || k == "vs" || k == "vm" || k == "mm"
+	return k == "ps" || k == "pm" || k == "vs" || k == "vm" || k == "mm" || k == "np"
 }
 func c07BadField(f string) bool {
 	return f == "chan" || f == "func" || f == "nan" || f == "inf" || f == "selfmap"
@@ -186,9 +199,15 @@ func c07Valid(d c07Item) bool {
 	if d.Recv < 0 || d.Recv >= n || !c07IsErrdef(d.Nodes[d.Recv].Kind) {
 		return false
 	}
+	nps := 0
 	for i, nd := range d.Nodes {
 		if !c07IsErrdef(nd.Kind) && !c07IsForeign(nd.Kind) {
 			return false
+		}
+		if nd.Kind == "np" {
+			if nps++; nps > 1 {
+				return false
+			}
 		}
 		if !c07IsErrdef(nd.Kind) && (nd.Field != "" || nd.Trace) {
 			return false
@@ -215,7 +234,7 @@ func c07Valid(d c07Item) bool {
 			}
 			nonNil++
 			ck := d.Nodes[c].Kind
-			if nd.Kind == "rs" && !c07IsForeign(ck) {
+			if nd.Kind == "rs" && (!c07IsForeign(ck) || ck == "np") {
 				return false // sentinel causes are foreign errors
 			}
 			if c07IsErrdef(nd.Kind) && c07IsErrdef(ck) && c >= i {
@@ -408,7 +427,7 @@ func (v c07ValMarshaler) MarshalJSON() ([]byte, error) { return []byte(strconv.I
 type c07ValTexter struct{ S string }
 
 func (v c07ValTexter) MarshalText() ([]byte, error) { return []byte(v.S), nil }
-func (v c07ValTexter) String() string                { return v.S }
+func (v c07ValTexter) String() string               { return v.S }
 
 func c07FieldOpt(f string) errdef.Option {
 	switch f {
@@ -455,6 +474,9 @@ func c07Build(d c07Item) (b *c07Built, problem string) {
 		switch nd.Kind {
 		case "ps":
 			b.errs[i] = &c07PS{id: i}
+		case "np":
+			b.errs[i] = (*c07NP)(nil)
+			c07NPId, c07NPCause = i, nil
 		case "pm":
 			b.errs[i] = &c07PM{id: i}
 		case "vs":
@@ -557,6 +579,8 @@ func c07Build(d c07Item) (b *c07Built, problem string) {
 		switch nd.Kind {
 		case "ps":
 			b.errs[i].(*c07PS).cause = one
+		case "np":
+			c07NPCause = one
 		case "pm":
 			b.errs[i].(*c07PM).causes = many
 		case "vs":
@@ -911,6 +935,9 @@ func c07GraphCoq(d c07Item) string {
 		if !c07IsValue(nd.Kind) {
 			key = "(Some " + cN(i+1) + ")" // distinct objects, distinct addresses
 		}
+		if nd.Kind == "np" {
+			key = "(Some 0%N)" // a typed nil pointer: reflect.Value.Pointer() is 0
+		}
 		var unw string
 		switch {
 		case c07IsSingle(nd.Kind):
@@ -1058,6 +1085,9 @@ func c07Random(r *Rng, n int, badFields bool) c07Item {
 	for i := range kinds {
 		kinds[i] = Pick(r, c07Kinds)
 	}
+	if n > 0 && r.Chance(1, 5) {
+		kinds[r.Intn(n)] = "np" // at most one typed nil error per graph
+	}
 	allowed := func(i int, from string) []int {
 		var out []int
 		for c := 0; c <= n; c++ {
@@ -1065,7 +1095,7 @@ func c07Random(r *Rng, n int, badFields bool) c07Item {
 			if c < n {
 				ck = kinds[c]
 			}
-			if from == "rs" && !c07IsForeign(ck) {
+			if from == "rs" && (!c07IsForeign(ck) || ck == "np") {
 				continue
 			}
 			if c07IsErrdef(from) && c07IsErrdef(ck) && c >= i {
@@ -1179,6 +1209,11 @@ func c07Fixed() []c07Item {
 		return c07Item{Nodes: nodes, Recv: recv, Class: class}
 	}
 	return []c07Item{
+		// a typed nil error with nil-safe methods that unwraps to itself / back to itself through another node
+		mk("typed-nil-cycle", 1, c07Node{Kind: "np", Causes: []int{0}}, c07Node{Kind: "ew", Causes: []int{0}}),
+		mk("typed-nil-cycle", 2, c07Node{Kind: "np", Causes: []int{1}}, c07Node{Kind: "vs", Causes: []int{0}}, c07Node{Kind: "ej", Causes: []int{1, 0}}),
+		mk("typed-nil-cycle", 2, c07Node{Kind: "np", Causes: []int{1}}, c07Node{Kind: "pm", Causes: []int{0, -1}}, c07Node{Kind: "ew", Causes: []int{1}}),
+		mk("typed-nil-leaf", 1, c07Node{Kind: "np"}, c07Node{Kind: "ew", Causes: []int{0}}),
 		// K1: e = D.Wrap(f); f.cause = e
 		mk("json-errdef-cycle", 1, c07Node{Kind: "ps", Causes: []int{1}}, c07Node{Kind: "ew", Causes: []int{0}}),
 		// the cycle passes through an inner errdef node only
